@@ -2,7 +2,7 @@ from common import KERNEL, CORR
 
 PROP = dict(
     level="proof",
-    generators=["C10"],
+    generators=["C10", "C06"],   # the TS remuxer / HLS segment-content ops too: the segments are what that remuxer emits
     trusted_base=[
         KERNEL, CORR,
         "Spec/HlsConsistent.lean is the meaning of 'consistent at one instant' for the theorems (observer = directory + the live-playlist versions seen so far); "
